@@ -38,8 +38,9 @@ CHECKS["C09"] = dict(
     technique="bounded symbolic execution of clang LLVM IR of the real templates, SMT (z3/cvc5, integer emission) against an exact affine model",
     text="Per ordered unit pair x rep, for ALL stored values: (E) no UB and exact affine result integral and representable => conversion returns exactly it; "
          "(R) intermediates fit => no UB trap; mixed-unit/mixed-rep comparisons, <=> and point-point differences equal the exact order/displacement of "
-         "positions in the common point unit. Value half only.",
-    note=TB + "; unit pairs enumerated; 'must not compile' half is outside; origin representation units are a datum of the model.")
+         "positions in the common point unit; point + quantity, quantity + point, point - quantity (other unit, other rep, incl. unsigned reps narrower than the common rep) equal x*k1 +/- y*k2 in the common unit "
+         "with the raw operator's trap condition; 22 operations without affine meaning are observed to be rejected by the compiler (with positive controls).",
+    note=TB + "; unit pairs enumerated; the 'must not compile' clause is a compiler verdict observed on enumerated probes, not a solver result; origin representation units are a datum of the model.")
 CHECKS["C10"] = dict(
     category="model_checking",
     technique="bounded symbolic execution of clang LLVM IR of the real templates, SMT (z3/cvc5) plus closed compile-time facts checked against an exact rational model",
